@@ -54,6 +54,7 @@ def plan(tier, seed):
     per = 18 if tier == "quick" else 120
     out = [{"kind": "generated", "cases": per, "base": seed * 1000003 + k} for k in range(n)]
     out.append({"kind": "textbook", "base": seed})
+    out.append({"kind": "wide-reversible", "cases": 4 if tier == "quick" else 24, "base": seed})
     # long chains (70 000 steps each) on models with a non-zero equality: where the periodic re-projection has work to do
     out += [{"kind": "long-chain", "cases": 2 if tier == "quick" else 6, "base": seed * 1000003 + 500 + k} for k in range(2 if tier == "quick" else 8)]
     return out
@@ -230,6 +231,35 @@ def _run_model(acc, rng, model, extra, ident0, sig, long_chain=False):
                         sampler = make()
                     except (ValueError, TypeError):
                         raise _Refused()
+                    if rng.random() < 0.35 or any(lb_ is not None and lb_ == ub_ and lb_ != 0 for _c, lb_, ub_ in extra):
+                        # the repair step itself, at a hook: "_reproject ... is guaranteed to return a new feasible point".
+                        # A chain needs hundreds of thousands of steps before round-off makes it act (4-12 times per
+                        # quick run, see the counters), so it is also handed points pushed off the equalities directly.
+                        _rs = np.random.get_state()  # ACHR draws from numpy's global generator: the probe must not move it
+                        try:
+                            P_ = sampler.problem
+                            # an interior point (the centre) or a warm-up vertex: near a vertex a projection usually leaves the
+                            # bounds and the fall-back is taken, in the interior it does not
+                            w0 = np.array(sampler.center if rng.random() < 0.7 else sampler.warmup[rng.randrange(sampler.n_warmup)], dtype=float)
+                            bump = np.random.RandomState(seed).normal(size=len(w0)) * 50 * sampler.feasibility_tol
+                            out = sampler._reproject(w0 + bump)
+                            acc.count("reprojections_of_a_pushed_point")
+                            res_eq = float(np.abs(P_.equalities.dot(out) - P_.b).max()) if len(P_.b) else 0.0
+                            vb = P_.variable_bounds
+                            res_bd = float(max((vb[0] - out).max(), (out - vb[1]).max()))
+                            if res_eq > 10 * sampler.feasibility_tol or res_bd > 10 * sampler.bounds_tol:
+                                acc.ev()
+                                acc.violation(
+                                    f"C16/{method}/reproject-returns-an-infeasible-point",
+                                    f"_reproject() of a point pushed {50 * sampler.feasibility_tol:.1g} off the equalities returned a point with equality residual {res_eq:.3g}, bound violation {res_bd:.3g}",
+                                    dict(ident, equality_residual=res_eq, bound_violation=res_bd),
+                                )
+                                continue
+                        except Exception as e:
+                            acc.count("reproject_probe_errors")
+                            acc.add("reproject_probe_error_kinds", type(e).__name__ + ": " + str(e)[:80])
+                        finally:
+                            np.random.set_state(_rs)
                     if method == "optgp" and rng.random() < 0.5:
                         # another model's sampler is built after ours and stays alive while ours is used.  (Not next to
                         # ACHR samplers: ACHR seeds numpy's *global* generator when it is constructed and draws from it
@@ -429,6 +459,30 @@ def run_shard(desc, acc):
         for pr in desc["probes"]:
             run_probe(pr, acc)
         return
+    if desc["kind"] == "wide-reversible":
+        # wide, symmetric, reversible ranges around a non-zero equality: interior points whose projection onto the
+        # homogeneous null space stays inside every bound (the generated networks are mostly one-sided)
+        import cobra
+
+        for case in range(desc["cases"]):
+            rng = gen.rng_for("C16w", desc["base"], case)
+            m = cobra.Model("wide")
+            mets = [cobra.Metabolite(f"w{k}_c", compartment="c") for k in range(3)]
+            W = rng.choice([50.0, 100.0, 400.0])
+            spec = [("WEX0", {0: 1}), ("W1", {0: -1, 1: 1}), ("W2", {0: -1, 2: 1}), ("W3", {1: -1, 2: 1}), ("WEX1", {1: -1}), ("WEX2", {2: -rng.choice([1, 2])})]
+            rs = []
+            for rid, st in spec:
+                r = cobra.Reaction(rid, lower_bound=-W, upper_bound=W)
+                r.add_metabolites({mets[k]: v for k, v in st.items()})
+                rs.append(r)
+            m.add_reactions(rs)
+            rhs = rng.choice([7.0, -3.0, 0.5 * W / 10])
+            coefs = {"W1": 1, "W2": -1}
+            m.add_cons_vars([m.problem.Constraint(m.reactions.W1.flux_expression - m.reactions.W2.flux_expression, lb=rhs, ub=rhs, name="extra_0")])
+            acc.count("models_with_extra_constraints")
+            acc.count("inhomogeneous_models")
+            run_model(acc, rng, m, [(coefs, rhs, rhs)], {"model": "wide-reversible", "base": desc["base"], "case": case, "rhs": rhs, "W": W}, f"wide-{W}-{rhs}")
+        return
     if desc["kind"] == "textbook":
         rng = gen.rng_for("C16t", desc["base"])
         model = hist.bundled("textbook")
@@ -512,5 +566,9 @@ def run_shard(desc, acc):
 def replay(w, acc):
     if w.get("model") == "textbook":
         run_shard({"kind": "textbook", "base": w["base"]}, acc)
+    elif w.get("model") == "wide-reversible":
+        run_shard({"kind": "wide-reversible", "base": w["base"], "cases": w["case"] + 1}, acc)
+    elif w.get("tolerance") == 1e-9:
+        run_shard({"kind": "long-chain", "base": w["base"], "first": w["case"], "cases": 1}, acc)
     else:
         run_shard({"kind": "generated", "base": w["base"], "first": w["case"], "cases": 1}, acc)
